@@ -15,7 +15,7 @@ def vec(lon, lat):
 def run(run):
     rng = run.rng
     run.do_ties()
-    quick = run.tier == "quick"
+    quick = run.quick
     ref_tables = tables_are_reference()
     rmax = 3 if quick else 6
     cells = [c for r in range(0, rmax + 1) for c in gen.all_cells(r)]
